@@ -75,6 +75,10 @@ impl Run {
         p
     }
 
+    pub fn violation_with(&mut self, what: &str, replay: J) -> PathBuf {
+        self.violation(what, replay)
+    }
+
     pub fn known_finding(&mut self, id: &str, what: &str) {
         println!("KNOWN-FINDING: property={} {} [{}]", self.prop, what, id);
         self.known_printed.push(id.to_string());
